@@ -33,7 +33,8 @@ def near(x):
 # ------------------------------------------------------------------ sources and labelled point sets
 GEOM = {"Cuboid": (1.0, 1.2, 0.8), "Cuboid-flat": (2.0, 0.1, 1.0), "Cuboid-long": (0.2, 0.2, 3.0), "Cuboid-zero-polarization": (1.0, 1.2, 0.8),
         "Cylinder": (1.0, 1.2), "Cylinder-flat": (2.0, 0.1), "Cylinder-long": (0.3, 3.0), "Cylinder-zero-polarization": (1.0, 1.2),
-        "Cylinder-axial": (1.0, 1.2), "Cylinder-diametral": (1.0, 1.2)}
+        "Cylinder-axial": (1.0, 1.2), "Cylinder-diametral": (1.0, 1.2),
+        "Cuboid-polx": (1.0, 1.2, 0.8), "Cuboid-poly": (1.0, 1.2, 0.8), "Cuboid-polz": (1.0, 1.2, 0.8), "Cuboid-polxy": (1.0, 1.2, 0.8)}
 
 
 def sources():
@@ -45,6 +46,9 @@ def sources():
         S[nm] = lambda nm=nm, **kw: magpy.magnet.Cuboid(dimension=GEOM[nm], polarization=pol, **kw)
     for nm in ("Cylinder-flat", "Cylinder-long"):
         S[nm] = lambda nm=nm, **kw: magpy.magnet.Cylinder(dimension=GEOM[nm], polarization=pol, **kw)
+    # polarization exactly along one axis / in one coordinate plane: some face charges vanish identically
+    for nm, pv in (("Cuboid-polx", (0.7, 0, 0)), ("Cuboid-poly", (0, -0.7, 0)), ("Cuboid-polz", (0, 0, 0.7)), ("Cuboid-polxy", (0.4, 0.6, 0))):
+        S[nm] = lambda pv=pv, **kw: magpy.magnet.Cuboid(dimension=(1.0, 1.2, 0.8), polarization=pv, **kw)
     # purely axial / purely diametral polarization: only one of the two cylinder formulas is evaluated
     S["Cylinder-axial"] = lambda **kw: magpy.magnet.Cylinder(dimension=GEOM["Cylinder"], polarization=(0, 0, 0.7), **kw)
     S["Cylinder-diametral"] = lambda **kw: magpy.magnet.Cylinder(dimension=GEOM["Cylinder"], polarization=(0.4, -0.6, 0), **kw)
